@@ -532,8 +532,86 @@ static void exec_splice(void)
 	mc_done();
 }
 
+/* many pumps of one thread hold a buffer at the same time (more than the per-thread cache keeps), then all finish */
+static void exec_many(void)
+{
+	enum { N = 26 };
+	static struct iv_fd_pump pumps[N];
+	static int fr[N], fw[N], tr[N], tw[N], done[N];
+	int i, k, n, all, rounds;
+	char junk[4096], out[64];
+
+	env_init();
+	if (mc_choose(2, MC_CONFIG, "no-splice"))
+		env_sc_errno[ENV_SC_SPLICE] = ENOSYS;
+	n = 18 + 2 * mc_choose(5, MC_CONFIG, "pumps");     /* 18 .. 26: below, at and above the cache size of 20 */
+	mc_obs("many n=%d splice=%d", n, !env_sc_errno[ENV_SC_SPLICE]);
+	allocs0 = env_lib_allocs_live;
+	iv_init();
+	memset(junk, 'j', sizeof(junk));
+	for (i = 0; i < n; i++) {
+		mkchan(0, &fr[i], &fw[i]);
+		mkchan(0, &tr[i], &tw[i]);
+		/* block the output: fill the 4096-byte sink pipe */
+		while (write(tw[i], junk, sizeof(junk)) > 0)
+			;
+		memset(&pumps[i], 0xbe, sizeof(pumps[i]));
+		pumps[i].from_fd = fr[i];
+		pumps[i].to_fd = tw[i];
+		pumps[i].cookie = (void *)&ip;
+		pumps[i].set_bands = set_bands;
+		pumps[i].flags = 0;
+		ip = &pumps[i];
+		iv_fd_pump_init(&pumps[i]);
+		if (write(fw[i], "0123456789", 10) != 10)
+			mc_broken("feed");
+		close(fw[i]);
+		if (iv_fd_pump_pump(&pumps[i]) != 1)
+			mc_fail("pump-return", "pump %d with a blocked output did not return 1", i);
+		mc_mark_callback();
+	}
+	/* unblock every sink and run all pumps to completion */
+	for (i = 0; i < n; i++)
+		while (read(tr[i], junk, sizeof(junk)) > 0)
+			;
+	for (rounds = 0, all = 0; rounds < 20 && !all; rounds++) {
+		all = 1;
+		for (i = 0; i < n; i++) {
+			if (done[i])
+				continue;
+			k = iv_fd_pump_pump(&pumps[i]);
+			if (k < 0)
+				mc_fail("pump-return", "pump %d returned -1 without an I/O error", i);
+			if (k == 0)
+				done[i] = 1;
+			else
+				all = 0;
+		}
+	}
+	if (!all)
+		mc_fail("pump-stall", "not all of %d concurrent pumps finished", n);
+	for (i = 0; i < n; i++) {
+		ssize_t r = read(tr[i], out, sizeof(out));
+		if (r != 10 || memcmp(out, "0123456789", 10))
+			mc_fail("pump-stream", "pump %d of %d concurrent ones delivered %zd bytes / wrong data", i, n, r);
+		iv_fd_pump_destroy(&pumps[i]);
+		close(fr[i]); close(tr[i]); close(tw[i]);
+	}
+	iv_deinit();
+	if (env_lib_allocs_live != allocs0)
+		mc_fail("leak-mem", "%ld library allocations live after iv_deinit (%d concurrent pumps)", env_lib_allocs_live - allocs0, n);
+	if (env_lib_fds_open()) {
+		char b[300];
+		env_lib_fds_list(b, sizeof(b));
+		mc_fail("leak-fd", "library descriptors left open after iv_deinit with %d concurrent pumps: %s", n, b);
+	}
+	mc_done();
+}
+
 static void exec_one(void)
 {
+	if (!strcmp(mc_arg("mode", "rw"), "many"))
+		exec_many();
 	if (!strcmp(mc_arg("mode", "rw"), "rw"))
 		exec_rw();
 	else
